@@ -88,10 +88,10 @@ def Filter.accepts (f : Filter) (hops : List IA) : Bool :=
 def filterLoop (hops : List IA) (next : IA) (allowIsdLoop : Bool) : Bool :=
   hasLoop (if next = (0, 0) then hops else hops ++ [next]) allowIsdLoop
 
-/-- `Propagator.shouldIgnore(beacon, intf)` with `next = intf.TopoInfo().IA` -/
+/-- `Propagator.shouldIgnore(beacon, intf)` with `next = intf.TopoInfo().IA`: `FilterLoop` over the
+beacon extended by an entry for the local AS (the entry the extender is about to append). -/
 def shouldIgnore (localIA : IA) (allowIsdLoop : Bool) (hops : List IA) (next : IA) : Bool :=
-  if hops.any (fun ia => ia == localIA) then true
-  else filterLoop hops next allowIsdLoop
+  filterLoop (hops ++ [localIA]) next allowIsdLoop
 
 /-! ### policies and usage -/
 
